@@ -28,6 +28,8 @@ QUICK = [
     _k('coarse_contract', opt='coarse', kind='contract', T=4),
     _k('coarse_contract_spread', opt='coarse', kind='contract', T=4, ec=True),
     _k('coarse_contract_win_unaligned', opt='coarse', kind='contract', T=5, win=(1, 5)),
+    _k('coarse_contract_ends_inside_unaligned', opt='coarse', kind='contract', T=6, win=(1, 4), ec=True),
+    _k('coarse_transport_ends_inside_unaligned', opt='coarse', kind='transport', T=6, win=(0, 3), eff=0.5),
     _k('coarse_contract_straddles_start', opt='coarse', kind='contract', T=4, win=(-1, 5)),
     _k('coarse_transport', opt='coarse', kind='transport', T=4, eff=0.5),
     _k('coarse_storage_eff', opt='coarse', kind='storage', T=4, eff=0.75),
